@@ -29,6 +29,14 @@ def gen_world(rng, i, tier):
     lines, kinds, pairs = grammar.gen_conventional(rng, D, C, rng.randint(0, 12))
     w = {"kind": "parse-error", "D": D, "C": C, "lines": [[k, l] for k, l in zip(kinds, lines)], "inject_seed": rng.getrandbits(32),
          "cfg": gen.io_cfg(rng), "init": rng.pick(["null", "sentinel"]), "errstrings": i % 20 == 0}
+    if rng.chance(0.15):
+        # one comment line whose length sits at a stdio / getline buffer boundary (line + newline = 4096, 8191, 8192, 16384 ...):
+        # it is one line, and the lines after it keep their numbers
+        n = rng.pick([4094, 4095, 4096, 8189, 8190, 8191, 8192, 8193, 16382, 16383, 16384, 32767])
+        ok = [k for k in range(len(w["lines"]) + 1) if k == len(w["lines"]) or w["lines"][k][0] != "cont"]     # never between a value and its continuation
+        at = rng.pick(ok)
+        w["lines"].insert(at, ["comment", rng.pick(C) + "L" * (n - 1)])
+        w["boundary_line"] = n
     if rng.chance(0.5):
         w["mode"] = "single"
         w["ep"] = rng.pick(["readFile", "readFileCb"])
@@ -224,6 +232,8 @@ def check(world, plans, results):
             v.probe("error_after_" + prevk)
         if len(ps) > 1:
             v.probe("two_malformed_lines")
+        if world.get("boundary_line"):
+            v.probe("line_length_at_buffer_boundary")
     if world.get("errstrings"):
         plan = plans[0]
         res = results[0]
